@@ -141,7 +141,7 @@ def run_case(p):
         if not all(t.is_complete() for t in tasks):
             viol.append(("parse_stream-full-set-incomplete", {}))
     # every subset (in emission order) for small sets: several tasks may be incomplete at once
-    if n <= 7:
+    if n <= 6:
         for mask in range(1, (1 << n) - 1):
             sub = [m for i, m in enumerate(msgs) if mask >> i & 1]
             if len(sub) >= n - 1:
